@@ -14,6 +14,8 @@ import MxModel.Generated.Tables
     rsv <name> bound=x,y cells=.. refs=.. spaces=.. params=..
         a global name read where only the parameters `bound` have values (static access to parametrised levels)
         -> `exp=<member|builtin|unbound> mx=<member|builtin|unbound>`
+    rcp <mode>     (none | absolute | auto | relative)
+        -> `base` | `inside` | `unknown`: the form of the statement `_mx_copy_refs` has for such a reference
     refval ty=<exact type> bases=<b1,b2> iface=0|1 valid=0|1 mod=0|1 io=0|1 fin=0|1
         -> `path` | `none` | `literal` | `module` | `io` | `pickle`   (ParentTranslator.ref_value)
 -/
@@ -76,6 +78,10 @@ def step (line : String) : String :=
     "exp=" ++ showTarget (exportedResolveAt Generated.exportReplaceOrder Generated.exportDummyFor
         Generated.exportStaticFallbackFor Generated.exportStaticFallbackUnless Generated.pythonBuiltins t bound n) ++
       " mx=" ++ showTarget (mxResolveAt Generated.pythonBuiltins t bound n)
+  | "rcp" :: mode :: _ =>
+    match refCopyAction Generated.exportRefCopyRule mode with
+    | some a => a
+    | none => "unknown"
   | "refval" :: rest =>
     let v : PyVal := { ty := field "ty=" rest, bases := names (field "bases=" rest),
                        iface := field "iface=" rest = "1", valid := field "valid=" rest = "1",
